@@ -22,6 +22,7 @@ from .evmdiff import MAIN, W
 
 
 PLAIN_SLOT_LIMIT = 1 << 32
+MAX_ETH = 1 << 128
 SOLVER_BUDGET_S = 3.0
 SOLVER_TOTAL_S = (50.0, 900.0)   # (quick, thorough) wall-clock cap on solver-aided input search per run
 FLAG_WARNING = re.compile(r"incomplete|loop|bound|--depth|--width|unsupported|not supported", re.I)
@@ -80,6 +81,12 @@ def compare_scenario(ctx, pid, scn, sr, inputs_list, concs, report):
         if conc.halt == "outOfFuel":
             ctx.count("concrete:outOfFuel")
             continue
+        # no intermediate balance can exceed MAX_ETH when the total supply in play stays below it
+        supply = sum(inp.balances.values()) + inp.baldefault * 8
+        if supply > MAX_ETH or any(v > MAX_ETH for v in conc.balances.values()):
+            ctx.count("input-outside-assumption:balance>2^128")   # the documented MAX_ETH modelling assumption
+            continue
+        undecided = False
         covering = []
         for j, p in enumerate(sr.paths):
             pe = D.PathEval(inp)
@@ -88,6 +95,7 @@ def compare_scenario(ctx, pid, scn, sr, inputs_list, concs, report):
             except D.Unknown as u:
                 ctx.count("eval-unknown:" + str(u)[:30])
                 ok = None
+                undecided = True
             if ok:
                 covering.append((j, p, pe))
         base_replay = {
@@ -147,7 +155,9 @@ def compare_scenario(ctx, pid, scn, sr, inputs_list, concs, report):
                     if ps["codes"].get(a) != code:
                         report("C01", "created-code", f"path {j}: code at {a:#x} differs from the EVM", dict(base_replay, path=j))
                         break
-        if not covering:
+        if not covering and undecided:
+            ctx.count("coverage-undecided")   # some path could not be evaluated: no coverage claim either way
+        elif not covering:
             ctx.count("uncovered-input")
             if not flagged and sr.escaped is None:
                 report("C02", f"uncovered:{conc.halt}",
@@ -205,7 +215,7 @@ def choose_inputs(ctx, scn, sr, n_random, pool):
             disj.append(z3.And(conds) if conds else z3.BoolVal(True))
         if disj and time.time() < t_end:
             caps = [z3.ULE(z3.Select(z3.Array("balance_0", z3.BitVecSort(160), z3.BitVecSort(256)), z3.BitVecVal(a, 160)),
-                           z3.BitVecVal(1 << 100, 256)) for a in list(scn.contracts) + [0xCAFE]]
+                           z3.BitVecVal(1 << 100, 256)) for a in list(scn.contracts) + [0xCAFE] + [D.ALLOC_BASE + i for i in range(1, 6)]]
             for m in D.solve_inputs([z3.Not(z3.Or(disj))] + caps, scn, n=2, timeout_ms=1500):
                 add(m, "uncovered-model")
     except z3.Z3Exception:
@@ -267,6 +277,9 @@ def run(ctx, pid, features, n_scenarios, n_random_inputs, cfgs, malformed=0, poo
         ctx.count(f"paths:{min(len(sr.paths), 9)}")
         for p in sr.paths:
             ctx.count("pathkind:" + p.kind)
+        if sr.escaped and sr.escaped.startswith("TimeoutError"):
+            ctx.count("skipped:symbolic-run-watchdog")
+            continue
         if sr.escaped:
             ctx.count("escaped:" + sr.escaped.split(":")[0])
             if id(scn) in dmeta:
